@@ -23,6 +23,57 @@ type c11Case struct {
 	Keys  []gen.Bytes `json:"keys,omitempty"`
 	Dedup bool        `json:"dedup,omitempty"`
 	Big   int         `json:"big_len,omitempty"` // big strings are named by their byte length
+	// GenN > 0: PathsOf on a generated key list: c11GenKeys(GenN, GenStyle)
+	GenN     int `json:"generated_keys,omitempty"`
+	GenStyle int `json:"generated_style,omitempty"`
+}
+
+// c11GenKeys: n keys, ascending. Style 0: all equal; 1: runs of three equal keys; 2: all
+// distinct; 3: runs of 4096 equal keys shifted by one (runs straddle every multiple of 4096).
+func c11GenKeys(n, style int) []string {
+	keys := make([]string, n)
+	for i := range keys {
+		v := 0
+		switch style {
+		case 1:
+			v = i / 3
+		case 2:
+			v = i
+		case 3:
+			v = (i + 1) / 4096
+		}
+		keys[i] = string([]byte{'k', byte(v >> 16), byte(v >> 8), byte(v)})
+	}
+	return keys
+}
+
+// c11PathsOfGen judges PathsOf on a generated key list against map + adjacent dedup of
+// the reference paths.
+func c11PathsOfGen(n, style int, from, h int32, dedup bool) (got, want string) {
+	keys := c11GenKeys(n, style)
+	w := make([]uint64, 0, n)
+	var prev uint64
+	for i, k := range keys {
+		p := c11RefPath(ref.Bits(k), from, h)
+		if dedup && i > 0 && p == prev {
+			continue
+		}
+		prev = p
+		w = append(w, p)
+	}
+	g, p := pathsOf(keys, from, h, dedup)
+	if p != "" {
+		return p, fmt.Sprintf("%d paths", len(w))
+	}
+	if len(g) != len(w) {
+		return fmt.Sprintf("%d paths", len(g)), fmt.Sprintf("%d paths", len(w))
+	}
+	for i := range w {
+		if g[i] != w[i] {
+			return fmt.Sprintf("path %d = %#x", i, g[i]), fmt.Sprintf("path %d = %#x", i, w[i])
+		}
+	}
+	return "ok", "ok"
 }
 
 func init() {
@@ -30,7 +81,7 @@ func init() {
 		ID:     "C11",
 		Word32: true,
 		Level:  "exploration",
-		Rule: "E1 bounded-exhaustive enumeration: every string of length ≤N over {00,ff,a5,5a,01,80} (plus every single byte value, alone and in a 3-byte string, and 12 strings of 11..66 bytes) × every start bit in [0, 8·len+9] (and, for 5 strings, 56 far start bits: 2^16, 2^24, 2^28, 2^29, 2^30 (±1) and the last 41 int32 values) × every width 0..32 (and, on 64-bit builds, strings of 2^28-1, 2^28, 2^28+1 bytes - 2^31 bits, one more than an int32 counts - × start bits at both ends, around 2^30 and around the last int32 × 9 widths, against a byte-level reference): FromStr32 (count and value) and, for widths ≤30, PathOf against the slice [from, from+k) of the string's '0'/'1' rendering; PathsOf on every key list of length ≤4 over 5 short keys × dedup on/off × a (from,height) grid against map + adjacent-dedup of the reference paths. " +
+		Rule: "E1 bounded-exhaustive enumeration: every string of length ≤N over {00,ff,a5,5a,01,80} (plus every single byte value, alone and in a 3-byte string, and 12 strings of 11..66 bytes) × every start bit in [0, 8·len+9] (and, for 5 strings, 56 far start bits: 2^16, 2^24, 2^28, 2^29, 2^30 (±1) and the last 41 int32 values) × every width 0..32 (and, on 64-bit builds, strings of 2^28-1, 2^28, 2^28+1 bytes - 2^31 bits, one more than an int32 counts - × start bits at both ends, around 2^30 and around the last int32 × 9 widths, against a byte-level reference): FromStr32 (count and value) and, for widths ≤30, PathOf against the slice [from, from+k) of the string's '0'/'1' rendering; PathsOf on generated key lists of every threshold size (round numbers ±1) from 1000 to 70000 keys × 4 run shapes (all equal, runs of 3, all distinct, runs of 4096 straddling every multiple of 4096) × dedup on/off; PathsOf on every key list of length ≤4 over 5 short keys × dedup on/off × a (from,height) grid against map + adjacent-dedup of the reference paths. " +
 			"A case is one call; non-trivial when 0 < k (some bit is taken from the string) and the string is not all-zero.",
 		Assumptions: []string{"strings longer than N and other byte values are not enumerated (the function reads at most 5 bytes; spans of 1..5 bytes and starts before/at/after the end are all inside)"},
 		Run:         c11Run,
@@ -316,6 +367,30 @@ func c11Run(c *mc.Ctx) {
 		c.Expect(evals)
 		c.Add("giant_string_cases", evals)
 	}
+	// PathsOf on long key lists: every threshold size (round numbers ±1) from 1000 to 70000 keys × 4
+	// run shapes × dedup on/off
+	{
+		sizes := gen.ThresholdSizes(1000, 70000)
+		type job struct {
+			n, style int
+			dedup    bool
+		}
+		var jobs []job
+		for _, n := range sizes {
+			for style := 0; style < 4; style++ {
+				jobs = append(jobs, job{n, style, true}, job{n, style, false})
+			}
+		}
+		c.Expect(int64(len(jobs)))
+		c.Par(len(jobs), func(ji int) {
+			j := jobs[ji]
+			if g, w := c11PathsOfGen(j.n, j.style, 8, 24, j.dedup); g != w {
+				c.Fail(5<<50|int64(ji), "PathsOfGen", "PathsOf/long", c11Case{From: 8, W: 24, Dedup: j.dedup, GenN: j.n, GenStyle: j.style}, g, w)
+			}
+			c.Count(1, 1)
+			c.Add("pathsof_long_lists", 1)
+		})
+	}
 	// PathsOf
 	keyAlpha := []string{"", "\x00", "\xa5", "\xa5\x5a", "\xa5\x5a\xff"}
 	grid := [][2]int32{{0, 0}, {0, 1}, {0, 8}, {0, 12}, {3, 4}, {3, 13}, {8, 8}, {8, 9}, {12, 30}, {17, 5}, {1<<31 - 1, 9}, {1<<31 - 5, 8}, {1 << 30, 30}}
@@ -388,6 +463,9 @@ func c11RefBytes(s string, from, w int32) (int32, uint64) {
 }
 
 func c11Judge(kind string, cs c11Case) (got, want string) {
+	if kind == "PathsOfGen" {
+		return c11PathsOfGen(cs.GenN, cs.GenStyle, cs.From, cs.W, cs.Dedup)
+	}
 	s := string(cs.S)
 	if cs.Big >= 1<<27 {
 		s = c11GiantString(cs.Big)
